@@ -10,9 +10,11 @@ fn canvas(xs: &mut Xstate) -> Value {
         return Value::Null;
     }
     let full = xeh::d2_plugin::verif_canvas(xs);
+    // what a user sees when the host object itself is printed (`.s`, print): must not tell the copies apart
+    let repr = xs.get_var_value("d2-context").ok().map(|c| format!("{:?}", c));
     let mut buf = vec![];
     match xeh::d2_plugin::copy_rgba_data(xs, &mut buf) {
-        Ok((w, h)) => json!({"w": w, "h": h, "px": fnv(&format!("{:?}", buf)), "state": full}),
+        Ok((w, h)) => json!({"w": w, "h": h, "px": fnv(&format!("{:?}", buf)), "state": full, "repr": repr}),
         Err(_) => json!("unreadable"),
     }
 }
